@@ -217,8 +217,14 @@ class Controller(object):
         except ConflictError as e:
             if cid is None and cmd_name.lower() == 'quit':
                 # a termination signal must not get lost because another
-                # command happens to be running: try again shortly
-                self.loop.call_later(0.1, self.dispatch, job)
+                # command happens to be running
+                if self.arbiter._restarting:
+                    # the arbiter is already going down in order to
+                    # restart: make that a plain exit
+                    self.arbiter._restarting = False
+                else:
+                    # try again shortly
+                    self.loop.call_later(0.1, self.dispatch, job)
                 return
             # conflicts between two commands, sending error...
             return self.send_error(mid, cid, msg, str(e), cast=cast,
